@@ -19,3 +19,49 @@ Theorem C04_no_conflicted_artefact : forall cfg l r tr m',
     has_conflicted cfg (view (rootL cfg) (o_L x)) = false /\ has_conflicted cfg (view (rootR cfg) (o_R x)) = false.
 Proof. exact quiet_no_conflicted. Qed.
 Print Assumptions C04_no_conflicted_artefact.
+
+From CS Require Import TreeLookup TreeProofs MergeProofs.
+
+(* independent operations commute, so the merged tree does not depend on how the two users' operations
+   were interleaved *)
+Theorem C04_independent_ops_commute : forall a b t, indep a b = true -> wf t ->
+  teq (apply_op (apply_op t a) b) (apply_op (apply_op t b) a).
+Proof. exact apply_op_comm. Qed.
+Print Assumptions C04_independent_ops_commute.
+
+Theorem C04_interleaving_independent : forall base xs ys zs,
+  disjoint xs ys = true -> wf base -> interleave xs ys zs ->
+  same_tree (apply_ops base zs) (merge3 base xs ys) = true.
+Proof. exact interleave_same_tree. Qed.
+Print Assumptions C04_interleaving_independent.
+
+(* trace level: at every quiet report of an accepted run whose per-side operation lists are disjoint,
+   both views are merge3 of the base tree — whatever the interleaving was *)
+Theorem C04_quiet_views_are_merge : forall cfg l r tr m',
+  check_spec cfg = true -> wf l -> accept cfg l r tr = inl m' ->
+  forall pre x post, tr = pre ++ x :: post -> o_ev x = EQuiet ->
+    disjoint (side_ops cfg false pre) (side_ops cfg true pre) = true ->
+    same_tree (view (rootL cfg) (o_L x)) (merge3 (view (rootL cfg) l) (side_ops cfg false pre) (side_ops cfg true pre)) = true /\
+    same_tree (view (rootR cfg) (o_R x)) (merge3 (view (rootL cfg) l) (side_ops cfg false pre) (side_ops cfg true pre)) = true.
+Proof. exact quiet_views_are_merge. Qed.
+Print Assumptions C04_quiet_views_are_merge.
+
+(* every delete stays deleted; every rename ends with the object (and its children) only at the new path *)
+Theorem C04_delete_stays_deleted : forall t p, wf t -> delete_ok t p = true ->
+  (forall s, lookup (apply_op t (Delete p)) (p ++ s) = None) /\
+  (forall r, r <> p -> lookup (apply_op t (Delete p)) r = lookup t r).
+Proof. exact delete_stays_deleted. Qed.
+Print Assumptions C04_delete_stays_deleted.
+
+Theorem C04_rename_moves_subtree : forall t p q, wf t -> rename_ok t p q = true ->
+  (forall s, lookup (apply_op t (Rename p q)) (q ++ s) = lookup t (p ++ s)) /\
+  (forall s, lookup (apply_op t (Rename p q)) (p ++ s) = None) /\
+  (forall r, ~ TreePaths.pre p r -> ~ TreePaths.pre q r -> lookup (apply_op t (Rename p q)) r = lookup t r).
+Proof. exact rename_moves_subtree. Qed.
+Print Assumptions C04_rename_moves_subtree.
+
+(* non-vacuity: a concrete well-formed base tree, two disjoint operation lists with a folder rename and
+   deletes, one interleaving, and the equality (computed) *)
+Theorem C04_example : same_tree (apply_ops ex_base ex_zs) (merge3 ex_base ex_xs ex_ys) = true.
+Proof. exact ex_equal. Qed.
+Print Assumptions C04_example.
